@@ -46,6 +46,18 @@ def check(case):
         # the frame under test is the *second* one built from the very same argument objects: constructing a
         # MetricFrame must not consume or modify what the caller passed in (dicts, arrays, Series)
         MetricFrame(**kw)
+        sfo = kw["sensitive_features"]
+        if case.get("edit_inplace") and isinstance(sfo, (np.ndarray, pd.DataFrame, pd.Series)) and case["n"] >= 2:
+            # ... and it must read the containers again: the feature container is edited in place (rows rotated by
+            # one) between the two constructions, and the oracle follows the new contents
+            if isinstance(sfo, np.ndarray):
+                sfo[...] = np.roll(sfo.copy(), 1, axis=0)
+            elif isinstance(sfo, pd.DataFrame):
+                for j in range(sfo.shape[1]):
+                    sfo.iloc[:, j] = np.roll(sfo.iloc[:, j].to_numpy(), 1)
+            else:
+                sfo.iloc[:] = np.roll(sfo.to_numpy(), 1)
+            case = dict(case, sf=dict(case["sf"], cols=[[c[-1]] + list(c[:-1]) for c in case["sf"]["cols"]]))
     mf = MetricFrame(**kw)
 
     n = case["n"]
@@ -157,6 +169,8 @@ def check(case):
         tags.append("name_collision")
     if case.get("twice") and has_params:
         tags.append("second_construction_same_objects")
+    if case.get("twice") and case.get("edit_inplace") and case["sf"]["kind"] in ("ndarray", "ndarray2d", "dataframe", "series", "series_noname") and n >= 2:
+        tags.append("features_edited_in_place")
     return tags
 
 
@@ -164,6 +178,7 @@ def check(case):
 def _strategy(draw):
     c = draw(M.mf_case())
     c["twice"] = draw(st.booleans())
+    c["edit_inplace"] = draw(st.booleans())
     return c
 
 
